@@ -291,6 +291,41 @@ def r1_concrete_tags(ctx):
     tbl = [bi for bi, t in c.calls() if t["args"] and (flc.canon_op(t["args"][0]) or (0, ()))[1] and flc.mentions_field(flc.canon_op(t["args"][0]), "executor::Executor", "type_compatibility")]
     ctx.check(len(gc) == 1 and bool(tbl), R, c.key + "|lookup", "check_type_compatible looks the value's concrete tag up in type_compatibility[pattern_type_id]",
               "check_type_compatible no longer consults type_compatibility with get_concrete_type(value)", c.loc(0))
+    # both runtime tests (IsType and mailbox filtering) consult their table with the value's OWN concrete tag and nothing else: every `contains` key
+    # derives from get_concrete_type(value), and no other ConcreteType is built there (a second lookup under the canonical SHAPE id makes a
+    # receiver for one field typing accept tuples of another with the same labels)
+    for key in (EXEC + "::check_type_compatible", EXEC + "::check_message_compatible"):
+        made, lookups, bad_keys = [], 0, []
+        for k in F.with_closures(key):
+            kb = F.body(k)
+            kfl = Flow(kb, through_named=True)
+            made += [kb.loc(bi, si) for bi, si, _s in agg_sites(kb, "bytecode::ConcreteType")]
+            for bi, t in kb.calls():
+                if (t.get("callee") or "").endswith("HashSet::contains") and len(t["args"]) > 1 and op_place(t["args"][1]):
+                    lookups += 1
+                    srcs = kfl.sources(op_place(t["args"][1])["l"], through_calls=("Clone::clone", "Deref::deref"))
+                    back = kfl.backward({op_place(t["args"][1])["l"]}, through_calls=("Clone::clone", "Deref::deref"))
+                    for x in srcs:
+                        if x[0] == "call" and (x[2].get("callee") or "").endswith("Executor::get_concrete_type"):
+                            continue
+                        if x[0] == "arg" and x[1] == 1 and "::{closure" in k:
+                            # a captured variable: follow it to the operand captured where the closure is built
+                            okc = False
+                            for _b5, _s5, st5 in kb.stmts():
+                                if st5["k"] == "assign" and st5["p"]["l"] in back:
+                                    pl5 = st5["rv"].get("p") or (op_place(st5["rv"].get("op") or {}) if st5["rv"]["k"] in ("use", "cast") else None)
+                                    cap = F.captured(k, pl5) if pl5 else None
+                                    if cap and op_place(cap[1]):
+                                        pfl = Flow(cap[0], through_named=True)
+                                        ps = pfl.sources(op_place(cap[1])["l"], through_calls=("Clone::clone", "Deref::deref"))
+                                        okc = bool(ps) and all(y[0] == "call" and (y[2].get("callee") or "").endswith("Executor::get_concrete_type") for y in ps)
+                            if okc:
+                                continue
+                        bad_keys.append(kb.loc(bi))
+        ctx.check(lookups >= 1 and not made and not bad_keys, R, key + "|own-tag-only", "the table is consulted with get_concrete_type(value) only (%d lookup(s))" % lookups,
+                  "%s consults its table with a tag other than the value's own concrete tag (%s): values that do not inhabit the type are accepted" %
+                  (key.split("::")[-1], "ConcreteType built at %s" % made[0] if made else "lookup key at %s is not get_concrete_type(value)" % (bad_keys[0] if bad_keys else "?")),
+                  F.body(key).loc(0))
     # default for a missing IsType table entry is `false` (reject), for mailbox filtering `true` (documented permissive default)
     uo = [t for bi, t in c.calls_to("Option::unwrap_or")]
     ok = len(uo) == 1 and uo[0]["args"][1].get("val") == 0
